@@ -2729,6 +2729,54 @@ func genCase(rec *ev.Rec, openRoot, openTail bool) func(t *rapid.T) Case {
 
 // ---------------------------------------------------------------------------------------------
 
+// manySizes: the number of distinct marked elements written in ONE template file (boundary sizes of
+// one / two decimal digits, one / two hex digits, a byte; 1000 in the thorough tier only). Every
+// element carries its own marker and must be emitted exactly once per render, however many there are.
+var manySizes = []int{1, 9, 10, 11, 99, 100, 101, 255, 256, 257, 300}
+
+var manyLocs = []string{"page", "comp", "layout", "string"}
+
+// manyCase is a site whose file at loc (a page, a component included twice, a layout around the
+// page, the page body handed in as a string) holds size distinct marked elements; most are plain
+// leaves, some sit in a plain wrapper or in a loop wrapper (emitted in the first iteration only).
+func manyCase(size int, loc string, v int) Case {
+	var items []Item
+	next := size
+	for i := 1; i <= size; i++ {
+		it := Item{K: "once", M: i, Tag: leafTags[(i+v)%len(leafTags)], Sp: (i + v) % len(spellings)}
+		switch {
+		case (i+v)%16 == 7:
+			next++
+			items = append(items, Item{K: "for", M: next, N: 2, Kids: []Item{it}})
+		case (i+v)%10 == 3:
+			next++
+			items = append(items, Item{K: "div", M: next, Kids: []Item{it}})
+		default:
+			items = append(items, it)
+		}
+	}
+	c := Case{Pages: []Page{{}}}
+	es := []string{"load", "vue", "frag", "file", "nodes", "view", "assign", "lnodes"}
+	switch loc {
+	case "page":
+		c.Pages[0].Items = items
+	case "string":
+		c.Pages[0].Items = items
+		es = []string{"string", "byte", "reader", "xnodes"}
+	case "comp":
+		c.Comps = map[string][]Item{"A": items}
+		c.Pages[0].Items = []Item{{K: "inc", Comp: "A"}, {K: "inc", Comp: "A"}}
+		es = entries
+	case "layout":
+		c.Layouts = map[string]Layout{"l1": {Before: items[:len(items)/2], After: items[len(items)/2:]}}
+		c.Pages[0].Layout = "l1"
+		es = []string{"load", "file", "view", "assign"}
+	}
+	e, e2 := es[v%len(es)], es[(v+1)%len(es)]
+	c.Steps = []Step{{P: 0, Entry: e, Keep: stringy(e)}, {P: 0, Entry: e, Keep: stringy(e)}, {P: 0, Entry: e2}}
+	return c
+}
+
 func replay(kind string, raw json.RawMessage) error {
 	return run.Decode(raw, check)
 }
@@ -2741,6 +2789,29 @@ func TestProp(t *testing.T) {
 	known := kf.Load()
 	openRoot, openTail := known.Open(findSoleRoot), known.Open(findElseTail)
 	shard, shards := run.Shard()
+	// many marked elements in one file: every boundary size x location in thorough; in quick always the
+	// sizes beyond a byte (257, 300) in every location, plus one rotating smaller size per location
+	{
+		nm := 0
+		for li, loc := range manyLocs {
+			sizes := []int{257, 300, manySizes[(li*3+shard)%9]}
+			if run.Thorough() {
+				sizes = append(append([]int{}, manySizes...), 1000)
+			}
+			for si, size := range sizes {
+				nm++
+				if nm%shards != shard {
+					continue
+				}
+				c := manyCase(size, loc, li+si+shard)
+				nt, cls := classify(c)
+				cls = append(cls, fmt.Sprintf("many@%s", loc), fmt.Sprintf("many=%d", size))
+				if !run.Each(rec, "many", c, nt, cls, check) {
+					return
+				}
+			}
+		}
+	}
 	// exhaustive: every choice of 1..k slots of the universe site x parameter sets x entry histories
 	params := []uparams{
 		{2, 2, 2, "none", 0, 1, 1, 6, 1}, {0, 1, 3, "l1", 1, 2, 2, 8, 3}, {3, 0, 1, "l1-l2", 2, 1, 3, 1, 2}, {1, 3, 2, "base", 3, 2, 1, 9, 4},
